@@ -8,6 +8,7 @@ it); `vcheck` cross-checks that on sampled inputs (differential guard).
 from __future__ import annotations
 
 import builtins
+from fractions import Fraction
 import re
 import struct as _struct
 
@@ -814,10 +815,12 @@ class SymArray:
 
     def __init__(self, typecode, init=()):
         assert _sys.byteorder == "little", "array model is for a little-endian host"
-        if typecode not in _ARR:
+        if typecode not in _ARR and typecode != "d":
             raise Unsupported("array typecode %r" % typecode)
         self.typecode = typecode
-        self.itemsize, self.signed = _ARR[typecode]
+        # 'd': items are reals (A-REAL: binary64 as mathematical reals); only all-zero byte images
+        # can be read, nothing can be written as bytes
+        self.itemsize, self.signed = _ARR[typecode] if typecode != "d" else (8, True)
         self.items = []
         self.swapped = False
         if isinstance(init, (bytes, bytearray, SymBytes)):
@@ -827,6 +830,14 @@ class SymArray:
                 self.append(v)
 
     def _check(self, v):
+        if self.typecode == "d":
+            if isinstance(v, SymBool):
+                v = v._as_num()
+            if isinstance(v, builtins.int) and not isinstance(v, builtins.bool):
+                return builtins.float(v)          # a real array('d') holds floats only
+            if isinstance(v, (SymNum, builtins.float, Fraction)):
+                return v
+            raise TypeError("must be real number, not %s" % type(v).__name__)
         n = self.itemsize * 8
         lo, hi = (-(1 << (n - 1)), (1 << (n - 1)) - 1) if self.signed else (0, (1 << n) - 1)
         if isinstance(v, SymBool):
@@ -874,6 +885,8 @@ class SymArray:
         return bs if big else bs[::-1]
 
     def tobytes(self):
+        if self.typecode == "d":
+            raise Unsupported("byte image of an array of doubles")
         out = []
         for v in self.items:
             if isinstance(v, _Raw):
@@ -891,6 +904,11 @@ class SymArray:
         n = len(data.items)
         if n % self.itemsize:
             raise ValueError("bytes length not a multiple of item size")
+        if self.typecode == "d":
+            if any(not isinstance(b, builtins.int) or b for b in data.items):
+                raise Unsupported("doubles from a non-zero byte image")
+            self.items.extend([0.0] * (n // 8))
+            return
         for k in range(0, n, self.itemsize):
             # kept as raw bytes: the value depends on whether byteswap() is (later) applied
             self.items.append(_Raw(list(data.items[k:k + self.itemsize])))
@@ -938,7 +956,7 @@ class SymArray:
         return id(self)
 
     def tolist(self):
-        return list(self.items)
+        return [self._value(x) for x in self.items]
 
     def __deepcopy__(self, memo):
         a = SymArray(self.typecode)
